@@ -66,12 +66,38 @@ def make_impl(k):
     return UniformReservoirStorage(size=k, store_targets=True)
 
 
+def build_neighbours():
+    """Other library objects constructed (and, where that needs no draws, used) while the reservoir is in use: none of
+    them may disturb the reservoir's draws (a constructor that re-seeds the global generator makes every later draw of
+    the reservoir a fixed function of that seed)."""
+    import ixai.storage as S
+    import ixai.imputer as I
+    import ixai.explainer as E
+    model = lambda x: {'output': x['a'] if isinstance(x, dict) else 0}   # noqa: E731
+    loss = lambda y, p: 0                                               # noqa: E731
+    out = [S.BatchStorage(store_targets=True), S.IntervalStorage(size=2, store_targets=True),
+           S.SequenceStorage(store_targets=True), S.GeometricReservoirStorage(size=4, store_targets=True),
+           S.TreeStorage(cat_feature_names=['c'], num_feature_names=['a'], seed=7)]
+    for st in out[:4]:
+        st.update({'a': 1, 'c': 'u'}, 0)
+    out.append(I.MarginalImputer(model, 'joint', out[0]))
+    out.append(I.TreeImputer(model, storage_object=out[4]))
+    out.append(E.IncrementalPFI(model, loss, ['a', 'c'], storage=out[3], imputer=out[5]))
+    out.append(E.IncrementalSage(model, loss, ['a', 'c'], storage=out[3], imputer=out[5]))
+    out.append(E.BatchSage(model, ['a', 'c'], loss, storage=out[0]))
+    out.append(E.IntervalSage(model, ['a', 'c'], loss, interval_length=2, storage=out[1]))
+    return out
+
+
 def driver_for(kind, k, n):
     def driver(run):
-        if kind == 'impl':
+        if kind in ('impl', 'neigh'):
             s = make_impl(k)
+            keep = None
             for t in range(1, n + 1):
                 s.update({'id': t}, t)
+                if kind == 'neigh' and t == k:
+                    keep = build_neighbours()
             xs, ys = s.get_data()
             ids = [x['id'] if x['id'] == y else (x['id'], y) for x, y in zip(list(xs), list(ys))]
             if len(list(ys)) != len(list(xs)):
@@ -91,18 +117,23 @@ def run_task(task):
     tot = [0.0]
     bad = []
 
+    reseeds = set()
+
     def on_leaf(run, res):
         ids, ln = res
         w = float(run.weight)
         tot[0] += w
         if ln != k or len(set(ids)) != k:
             bad.append(ids)
+        if run.world:
+            reseeds.update(run.reseeded.values())
+            ids = ('@world', run.world, ids)      # draws after a library-side re-seed: judged per fixed answer sequence
         acc[ids] = acc.get(ids, 0.0) + w
     with _np_quiet():
         st = choice.explore(driver_for(kind, k, n), on_leaf=on_leaf, root=root,
                             float_policy=grid_policy(base), weighted=False)
     return dict(kind=kind, k=k, n=n, base=base, acc=acc, tot=tot[0], executions=st.executions, bad=bad[:3],
-                unscripted=st.unscripted)
+                unscripted=st.unscripted, reseeds=sorted(reseeds))
 
 
 class _np_quiet:
@@ -197,6 +228,22 @@ def plan(tier):
     return [(1, 2, 8), (1, 3, 6), (2, 3, 6), (2, 4, 5), (3, 4, 6)]
 
 
+def split_worlds(acc):
+    """acc -> [(world, normalised acc)], one entry per deterministic post-re-seed answer sequence (choice.world_groups);
+    [( (), acc )] when the library never re-seeded a global generator."""
+    if not any(isinstance(s, tuple) and s and s[0] == '@world' for s in acc):
+        return [((), acc)]
+    leaves = [((s[1], (s[2], w)) if (isinstance(s, tuple) and s and s[0] == '@world') else ((), (s, w))) for s, w in acc.items()]
+    out = []
+    for world, members in list(choice.world_groups(leaves, cap=200).items()):
+        tot = sum(w for _, w in members)
+        a = {}
+        for ids, w in members:
+            a[ids] = a.get(ids, 0.0) + w / tot
+        out.append((world, a))
+    return out
+
+
 def errors(acc, k, n):
     subs = list(itertools.combinations(range(1, n + 1), k))
     u = 1.0 / len(subs)
@@ -211,7 +258,7 @@ def main(rep):
     cfgs = plan(rep.tier)
     tasks = []
     for k, n, base in cfgs:
-        for kind in ('impl', 'WS', 'SW'):
+        for kind in ('impl', 'WS', 'SW') + (('neigh',) if k * n <= 6 or rep.tier == 'thorough' else ()):
             with _np_quiet():
                 roots = choice.frontier(driver_for(kind, k, n), 2, grid_policy(base))
             tasks += [(kind, k, n, base, r) for r in roots]
@@ -231,7 +278,8 @@ def main(rep):
     merged = {}
     for r in raw:
         key = (r['kind'], r['k'], r['n'], r['base'])
-        m = merged.setdefault(key, dict(acc={}, tot=0.0, executions=0, bad=[], unscripted=0))
+        m = merged.setdefault(key, dict(acc={}, tot=0.0, executions=0, bad=[], unscripted=0, reseeds=set()))
+        m['reseeds'].update(r.get('reseeds', ()))
         for s, w in r['acc'].items():
             m['acc'][s] = m['acc'].get(s, 0.0) + w
         m['tot'] += r['tot']
@@ -241,41 +289,55 @@ def main(rep):
     states = 0
     table = []
     for k, n, base in cfgs:
-        res = {kind: merged[(kind, k, n, base)] for kind in ('impl', 'WS', 'SW')}
+        res = {kind: merged[(kind, k, n, base)] for kind in ('impl', 'WS', 'SW', 'neigh') if (kind, k, n, base) in merged}
         for kind, m in res.items():
-            if abs(m['tot'] - 1.0) > 1e-9:
+            if abs(m['tot'] - 1.0) > 1e-9 and not m['reseeds']:
                 raise choice.HarnessError(f"leaf weights of {kind} (k={k},n={n}) sum to {m['tot']}")
         ref_err = [errors(res[kind]['acc'], k, n) for kind in ('WS', 'SW')]
         tau = max(TAU_FLOOR, TAU_FACTOR * max(max(e[0], e[1]) for e in ref_err))
-        e_sub, e_inc, incl, foreign = errors(res['impl']['acc'], k, n)
-        m = res['impl']
-        rep.add(evaluations=sum(r['executions'] for r in res.values()),
-                traces_validated_against_impl=m['executions'])
-        rep.unscripted += m['unscripted']
-        states += len(m['acc'])
-        desc = f"UniformReservoirStorage(size={k}) after n={n} observations (grid base {base})"
-        if m['bad'] or foreign:
-            rep.violation("C08/not-a-k-subset", f"{desc}: stored ids {m['bad'] or foreign} are not a "
-                          f"k-subset of the stream", {'k': k, 'n': n, 'base': base})
-        elif m['unscripted']:
-            rep.inconclusive.append(f"(k={k}, n={n}): {m['unscripted']} draws from primitives the harness "
-                                    f"cannot enumerate; no probability verdict")
-        elif e_sub > tau or e_inc > tau:
-            worst = max(incl, key=lambda t: abs(incl[t] - k / n))
-            rep.violation("C08/not-uniform",
-                          f"{desc}: max |P(subset) - 1/C(n,k)| = {e_sub:.4f}, max |P(item kept) - k/n| = "
-                          f"{e_inc:.4f} (item {worst}: {incl[worst]:.4f} vs {k / n:.4f}); tolerance {tau:.4f} "
-                          f"(reference Algorithm L under the same grids: "
-                          f"{max(ref_err[0][:2]):.4f}, {max(ref_err[1][:2]):.4f}); "
-                          f"P(item t kept) = {[round(incl[t], 4) for t in sorted(incl)]}",
-                          {'k': k, 'n': n, 'base': base})
-        row = {'k': k, 'n': n, 'grid_base': base, 'paths_impl': m['executions'], 'tau': round(tau, 5),
-               'err_subset_impl': round(e_sub, 5), 'err_inclusion_impl': round(e_inc, 5),
-               'err_ref_WS': round(max(ref_err[0][:2]), 5), 'err_ref_SW': round(max(ref_err[1][:2]), 5),
-               'P(item t kept)': [round(incl[t], 4) for t in sorted(incl)]}
-        table.append(row)
-        rep.sample(row, limit=10)
-        rep.mark_nontrivial([(k, n, s) for s in m['acc']])
+        for kind in ('impl', 'neigh'):
+            if kind not in res:
+                continue
+            m = res[kind]
+            rep.add(evaluations=m['executions'] + (sum(res[r]['executions'] for r in ('WS', 'SW')) if kind == 'impl' else 0),
+                    traces_validated_against_impl=m['executions'])
+            rep.unscripted += m['unscripted']
+            states += len(m['acc'])
+            desc = f"UniformReservoirStorage(size={k}) after n={n} observations (grid base {base})" + \
+                (", other library objects constructed after observation k" if kind == 'neigh' else "")
+            worlds = split_worlds(m['acc'])
+            scored = []
+            for world, acc in worlds:
+                e_sub, e_inc, incl, foreign = errors(acc, k, n)
+                scored.append((max(e_sub, e_inc), e_sub, e_inc, incl, foreign, world))
+            scored.sort(key=lambda t: -t[0])
+            _, e_sub, e_inc, incl, foreign, world = scored[0]
+            if world or m['reseeds']:
+                desc += (f"; the library re-seeded a global generator ({'; '.join(sorted(m['reseeds']))}), so the later draws "
+                         f"are a fixed function of that seed - for the answer sequence {[c for _, _, c in world]}")
+            if m['bad'] or foreign:
+                rep.violation("C08/not-a-k-subset", f"{desc}: stored ids {m['bad'] or foreign} are not a "
+                              f"k-subset of the stream", {'k': k, 'n': n, 'base': base})
+            elif m['unscripted']:
+                rep.inconclusive.append(f"(k={k}, n={n}): {m['unscripted']} draws from primitives the harness "
+                                        f"cannot enumerate; no probability verdict")
+            elif e_sub > tau or e_inc > tau:
+                worst = max(incl, key=lambda t: abs(incl[t] - k / n))
+                rep.violation("C08/not-uniform",
+                              f"{desc}: max |P(subset) - 1/C(n,k)| = {e_sub:.4f}, max |P(item kept) - k/n| = "
+                              f"{e_inc:.4f} (item {worst}: {incl[worst]:.4f} vs {k / n:.4f}); tolerance {tau:.4f} "
+                              f"(reference Algorithm L under the same grids: "
+                              f"{max(ref_err[0][:2]):.4f}, {max(ref_err[1][:2]):.4f}); "
+                              f"P(item t kept) = {[round(incl[t], 4) for t in sorted(incl)]}",
+                              {'k': k, 'n': n, 'base': base})
+            row = {'k': k, 'n': n, 'grid_base': base, 'scenario': 'alone' if kind == 'impl' else 'with-neighbours',
+                   'paths_impl': m['executions'], 'tau': round(tau, 5),
+                   'err_subset_impl': round(e_sub, 5), 'err_inclusion_impl': round(e_inc, 5),
+                   'err_ref_WS': round(max(ref_err[0][:2]), 5), 'err_ref_SW': round(max(ref_err[1][:2]), 5),
+                   'P(item t kept)': [round(incl[t], 4) for t in sorted(incl)]}
+            table.append(row)
+            rep.sample(row, limit=10)
+            rep.mark_nontrivial([(k, n, kind, s) for s in m['acc']])
     rep.add(states=states, transitions=sum(r['paths_impl'] for r in table))
     rep.note(table=table, tau_rule=f"tau = max({TAU_FLOOR}, {TAU_FACTOR} x worst quadrature error of two "
                                    f"independent correct Algorithm-L implementations on the same grids)")
